@@ -153,8 +153,28 @@ def oracle(case, ctx):
         ctx.sample(case)
 
 
+def planar_probe(c, ctx):
+    """Planar layer with explicit raw parameters and slope (known finding D7: negative_slope > 1)."""
+    import equinox as eqx
+    import jax.random as jr
+    from flowjax.bijections import Planar
+
+    d = len(c["w"])
+    obj = Planar(jr.PRNGKey(0), dim=d, negative_slope=c["slope"])
+    obj = eqx.tree_at(lambda p: p.params, obj, jnp.asarray(np.asarray(c["w"] + c["u"] + [c["b"]], bd.FDT)))
+    x = np.asarray(c["x"], bd.FDT)
+    y = obj.transform(jnp.asarray(x))
+    xb = np.asarray(obj.inverse(y))
+    if bc.amax(xb - x) > 1e-6 * (1 + bc.amax(x)):
+        raise Violation("C01|leaf|Planar|negative_slope>1|inverse(transform(x))",
+                        f"x={x.tolist()} y={np.asarray(y).tolist()} back={xb.tolist()} (slope {c['slope']})")
+
+
 def replay(spec, ctx):
-    oracle(spec.get("spec", spec) if "kind" not in spec else spec, ctx)
+    spec = spec.get("spec", spec) if "kind" not in spec else spec
+    if spec.get("kind") == "planar_probe":
+        return planar_probe(spec, ctx)
+    oracle(spec, ctx)
 
 
 def _with_y(strategy):
